@@ -6,7 +6,6 @@ import json, os, sys
 ROOT = os.path.join(os.path.dirname(os.path.abspath(__file__)), '..')
 
 NA = {
- "C09": "Pebble WAL/batch atomicity under crash; no WuKongIM integer/byte function decides any clause; a crash model of Pebble is outside SMT reach",
  "C12": "etcd-raft + goroutine pipelines + network schedules + Pebble; nothing encodable decides a clause",
  "C14": "differential behaviour of a Pebble-backed store against etcd MemoryStorage over histories and crash points",
  "C28": "ordering across goroutines, mailboxes and an ants pool; the SSA executor has no goroutine scheduler",
@@ -133,6 +132,10 @@ claim("C02", "other",
 claim("C11", "other",
       "Slice: the real exporters, stream writers and importers of pkg/db/meta and pkg/db/message on the in-memory engine, stores compared byte for byte. Metadata: export of hash-slot sets (bulk and streaming writer produce identical bytes) restored by four importers into a fresh store gives exactly the rows of the exported hash slots and a byte-identical re-export; a restore over stale / partially written targets, retried, converges and never touches rows outside the imported hash slots; malformed or mismatched payloads with a valid checksum, truncation at every point, appended bytes and a single changed byte (exact CRC-32 via its GF(2)-affine form) are refused with the target untouched. Messages: a backup cut at the checkpointed HW restores every committed row with its id / idempotency / sender indexes, checkpoint and retention state, nothing above HW, re-import is a no-op and the re-export identical; corruption and malformed streams are refused. Findings C11-F1 and C11-F2 (both repaired).",
       "Pebble snapshots / iterators are replaced by the in-memory engine (no durability; crash-retry is modelled by the partial states a crashed import can leave); the io.Pipe + goroutine wrappers, zstd / archive / manifest layers, pkg/db/transfer and node-restore orchestration are not run; small stores with 6-bit symbolic fields; all-position byte corruption only for a 58-byte export; for the bulk message importer only checksum-detected damage is claimed. " + TB)
+
+claim("C09", "other",
+      "Slice, under Pebble's contract taken as axioms (A1 a batch commit is atomic; A2 commits become durable in commit order; A3 a synced commit that returned nil is durable together with everything before it, un-synced commits may be lost as a suffix at a power loss): every message-store mutation (Append, follower ApplyFetch with and without checkpoint, TruncateFrom, TrimPrefixThrough, StoreCheckpoint(Monotonic); the compat ChannelStore paths incl. retention adoption, paged trims and dispatch cursors; exact proposal appends, ReplaceRecoverySuffix, DiscardForRestore) is run on the in-memory engine with a crash injected at EVERY commit boundary and a restart keeping any number of un-synced commits: the recovered store (rows, all secondary indexes, proposal identities, checkpoint, retention state, LEO = last stored row or retained floor, HW <= LEO) equals the reference after some prefix of the issued operations, the in-flight operation all or nothing, every operation that reported success on a durable path included; 2-operation (thorough 3) histories likewise.",
+      "Pebble itself (WAL, torn writes) is the axiom, not the subject; group commit of several requests into one physical batch, concurrency, the meta DB, epoch history, snapshot install and multi-channel batch APIs are not covered; the two deliberately un-synced paths (StoreCommittedDispatchCursor, deleteLatestMessageIndexes) are excluded from the durability obligation as documented by the code; DiscardForRestore is multi-commit by design - asserted: untouched, empty, or half-discarded with LoadDurableFrontier failing closed and a repeated discard completing; C07-F2 pattern assumed away as in C07. " + TB)
 
 def main():
     props = [json.loads(l) for l in open(os.path.join(ROOT, 'properties.jsonl'))]
